@@ -365,6 +365,11 @@ class Evaluator:
                 continue
             elif isinstance(st, ast.Assign) and len(st.targets) == 1 and isinstance(st.targets[0], ast.Name):
                 self.env[st.targets[0].id] = self.ev(st.value)
+            elif isinstance(st, ast.Assign) and len(st.targets) == 1 and isinstance(st.targets[0], ast.Attribute):
+                tgt = self.ev(st.targets[0].value)
+                if not isinstance(tgt, Record):
+                    raise Unsupported("attribute store on a non-record")
+                tgt.fields[st.targets[0].attr] = self.ev(st.value)
             elif isinstance(st, ast.AnnAssign) and isinstance(st.target, ast.Name) and st.value is not None:
                 self.env[st.target.id] = self.ev(st.value)
             elif isinstance(st, ast.AugAssign) and isinstance(st.target, ast.Name):
@@ -403,6 +408,14 @@ class Evaluator:
                         continue
                 if not broke:
                     self._block(st.orelse)
+            elif isinstance(st, ast.With):
+                for it in st.items:
+                    v = self.ev(it.context_expr)
+                    if it.optional_vars is not None:
+                        if not isinstance(it.optional_vars, ast.Name):
+                            raise Unsupported("with-target")
+                        self.env[it.optional_vars.id] = v
+                self._block(st.body)
             elif isinstance(st, ast.While):
                 broke = False
                 while self.truth(self.ev(st.test)):
